@@ -67,8 +67,16 @@ func runRot(maxS, initS string, ops []string) {
 	var max, init int
 	fmt.Sscan(maxS, &max)
 	fmt.Sscan(initS, &init)
-	if max > 8192 {
-		line = "@" + line // large files: implementation + oracle only (the list-based Lean model is quadratic)
+	hasMv := false
+	for _, op := range ops {
+		if op == "mv" {
+			hasMv = true
+		}
+	}
+	if max > 8192 || hasMv {
+		// large files: implementation + oracle only (the list-based Lean model is quadratic); external renames of the
+		// active file are not in the model's alphabet
+		line = "@" + line
 	}
 	verdict := "ok"
 	viol := func(sig, d string) {
@@ -126,6 +134,15 @@ func runRot(maxS, initS string, ops []string) {
 				// what the removed active file held is gone by the operator's hand, not the channel's
 				cur := activeExpectation(want, order, dir)
 				want = want[:len(want)-cur]
+				continue
+			}
+			if op == "mv" {
+				// the operator moves the active file away (as a log rotation tool does): what it holds stays there
+				moved := fmt.Sprintf("moved.%d", len(order))
+				if os.Rename(path, filepath.Join(dir, moved)) == nil {
+					known[moved] = true
+					order = append(order, moved)
+				}
 				continue
 			}
 			p, ok := parseOp(op)
@@ -438,6 +455,10 @@ func genC07(tier string, seed uint64) {
 		for j := 0; j < k; j++ {
 			if r.Intn(12) == 0 {
 				ops = append(ops, "rm")
+				continue
+			}
+			if i%3 == 0 && r.Intn(10) == 0 {
+				ops = append(ops, "mv")
 				continue
 			}
 			var ls []string
